@@ -69,6 +69,7 @@ From Coq Require Import Floats.
 From Flocq Require Import Core BinarySingleNaN PrimFloat.
 From PV Require Import proofs.FloatFacts proofs.WrapFloat.
 From PV Require Import proofs.PackingFacts.
+From PV Require Import gen.GenFns proofs.SourceFacts.
 
 Theorem C15_F_wrap_range :
   forall x : F, is_finite (Prim2B x) = true -> (Rabs (B2R (Prim2B x)) <= 2251799813685248)%R ->
@@ -100,4 +101,15 @@ Theorem C15_every_copy_is_a_placement :
     siteR), In sym (p_syms NumR st) /\ In s (p_sites NumR st) /\ p = placement sym s.
 Proof. exact rel_members. Qed.
 Print Assumptions C15_every_copy_is_a_placement.
+
+
+Theorem C15_wrap_is_source :
+  forall (NN : Num) (x : carrier NN), gen_wrap NN x = wrap1 NN x.
+Proof. exact wrap_is_source. Qed.
+Print Assumptions C15_wrap_is_source.
+
+Theorem C15_source_translated :
+  gen_fns_problem = String.EmptyString.
+Proof. exact source_translated. Qed.
+Print Assumptions C15_source_translated.
 
